@@ -11,6 +11,9 @@
 #ifndef VF_RECREATE
 #define VF_RECREATE 1
 #endif
+#ifndef VF_FL
+#define VF_FL 0
+#endif
 #ifndef VF_NV
 #define VF_NV 1
 #endif
@@ -63,7 +66,9 @@ extern "C" void harness_db(void) {
   VF_ASSUME(in.builtAt != 0 && in.builtAt < (1ull << 63) && in.computedAt < (1ull << 63));
   uint64_t sb = nondet_u64(), eb = nondet_u64(); memcpy(&in.start, &sb, 8); memcpy(&in.end, &eb, 8);
   bool oo[2], su[2]; in.dependencies.keys.reserve(3); in.dependencies.flags.reserve(3);
-  for (int i = 0; i < VF_ND; i++) { oo[i] = nondet_bool(); su[i] = nondet_bool(); KeyID dk; dk._value = g_keyId[1 + i]; in.dependencies.push_back(dk, oo[i], su[i]); }
+  // (the two flags of each dependency are concrete per query - VF_FL, two bits per dependency: the packed word then stays a constant
+  //  for symex all the way through the blob and back, and which key a dependency names is never a symbolic choice)
+  for (int i = 0; i < VF_ND; i++) { oo[i] = (VF_FL >> (2 * i)) & 1; su[i] = (VF_FL >> (2 * i + 1)) & 1; KeyID dk; dk._value = g_keyId[1 + i]; in.dependencies.push_back(dk, oo[i], su[i]); }
   KeyID k0; k0._value = g_keyId[0];
   HRule& rule = *new HRule(KeyType((const char*)g_keyBytes[0], g_keyLen[0]));
   SQLiteBuildDB* w = newDB(true, client);
